@@ -22,3 +22,93 @@ Definition ns_iri_eqb (ns suffix other : str) : bool :=
   match strip_prefix ns other with Some rest => str_eqb rest suffix | None => false end.
 Definition ns_ok (ns suffix : str) (other : term) (eq : bool) : bool :=
   Bool.eqb (match other with Iri o => ns_iri_eqb ns suffix o | _ => false end) eq.
+
+(* ===================== accessors, components, constructors (widened harness) ===================== *)
+
+(* same spelling (language-tag case included): what a copy / conversion / accessor must return *)
+Fixpoint term_same (a b : term) : bool :=
+  match a, b with
+  | Iri x, Iri y => str_eqb x y
+  | Bnode x, Bnode y => str_eqb x y
+  | Var x, Var y => str_eqb x y
+  | LitDt l1 d1, LitDt l2 d2 => str_eqb l1 l2 && str_eqb d1 d2
+  | LitLang l1 t1, LitLang l2 t2 => str_eqb l1 l2 && str_eqb t1 t2
+  | Triple s1 p1 o1, Triple s2 p2 o2 => term_same s1 s2 && term_same p1 p2 && term_same o1 o2
+  | _, _ => false
+  end.
+
+(* the accessor methods of the Term trait (None for the other kinds) *)
+Definition t_is_atom (t : term) : bool := match t with Triple _ _ _ => false | _ => true end.
+Definition acc_iri (t : term) : option str := match t with Iri s => Some s | _ => None end.
+Definition acc_bnode (t : term) : option str := match t with Bnode s => Some s | _ => None end.
+Definition acc_var (t : term) : option str := match t with Var s => Some s | _ => None end.
+Definition acc_lex (t : term) : option str := match t with LitDt l _ | LitLang l _ => Some l | _ => None end.
+Definition acc_dt (t : term) : option str :=
+  match t with LitDt _ d => Some d | LitLang _ _ => Some rdf_langString | _ => None end.
+Definition acc_tag (t : term) : option str := match t with LitLang _ g => Some g | _ => None end.
+Definition t_to_triple (t : term) : option (term * term * term) :=
+  match t with Triple s p o => Some (s, p, o) | _ => None end.
+
+(* what every representation answered to kind / is_atom / iri / bnode_id / lexical_form / datatype /
+   language_tag / variable *)
+Definition tview_ok (t : term) (k : N) (atom : bool) (i b l d g v : option str) : bool :=
+  N.eqb (kind_rank (kind_of t)) k && Bool.eqb (t_is_atom t) atom
+  && opt_eqb str_eqb (acc_iri t) i && opt_eqb str_eqb (acc_bnode t) b
+  && opt_eqb str_eqb (acc_lex t) l && opt_eqb str_eqb (acc_dt t) d
+  && opt_eqb str_eqb (acc_tag t) g && opt_eqb str_eqb (acc_var t) v.
+
+(* the default Term::eq of api/src/term.rs, for atoms, written over the accessors only *)
+Definition eq_acc (a b : term) : bool :=
+  N.eqb (kind_rank (kind_of a)) (kind_rank (kind_of b)) &&
+  match kind_of a with
+  | KIri => opt_eqb str_eqb (acc_iri a) (acc_iri b)
+  | KBnode => opt_eqb str_eqb (acc_bnode a) (acc_bnode b)
+  | KVariable => opt_eqb str_eqb (acc_var a) (acc_var b)
+  | KLiteral =>
+      opt_eqb str_eqb (acc_lex a) (acc_lex b) &&
+      match acc_tag a, acc_tag b with
+      | None, None => opt_eqb str_eqb (acc_dt a) (acc_dt b)
+      | Some g1, Some g2 => str_eqb_ci g1 g2
+      | _, _ => false
+      end
+  | KTriple => false
+  end.
+
+(* Term::constituents / Term::atoms (and their consuming variants) *)
+Fixpoint t_constituents (t : term) : list term :=
+  t :: match t with
+       | Triple s p o => t_constituents s ++ t_constituents p ++ t_constituents o
+       | _ => []
+       end.
+Fixpoint t_atoms (t : term) : list term :=
+  match t with
+  | Triple s p o => t_atoms s ++ t_atoms p ++ t_atoms o
+  | _ => [t]
+  end.
+Definition terms_same (a b : list term) : bool := list_eqb term_same a b.
+Definition atoms_ok (t : term) (obs : list term) : bool := terms_same (t_atoms t) obs.
+Definition constituents_ok (t : term) (obs : list term) : bool := terms_same (t_constituents t) obs.
+Definition to_triple_ok (t : term) (obs : option (term * term * term)) : bool :=
+  match t_to_triple t, obs with
+  | None, None => true
+  | Some (s, p, o), Some (s', p', o') => term_same s s' && term_same p p' && term_same o o'
+  | _, _ => false
+  end.
+
+(* every value built for the term t along another construction path (From impls, checked
+   constructors, stash copies, vocabulary round trips, statement accessors) spells t *)
+Definition built_ok (t : term) (obs : list term) : bool := forallb (term_same t) obs.
+
+(* `lex * NsTerm` (typed literal) and `lex * LanguageTag` (language-tagged string) *)
+Definition ns_lit (ns suffix lex : str) : term := LitDt lex (ns ++ suffix).
+Definition ns_lit_ok (ns suffix lex : str) (obs : term) : bool := term_same (ns_lit ns suffix lex) obs.
+Definition lang_lit_ok (lex tag : str) (obs : term) : bool := term_same (LitLang lex tag) obs.
+
+(* graph_name_eq of api/src/term/_graph_name.rs: None is the default graph *)
+Definition gname_eqb (a b : option term) : bool :=
+  match a, b with
+  | Some x, Some y => term_eqb x y
+  | None, None => true
+  | _, _ => false
+  end.
+Definition gname_ok (a b : option term) (eq : bool) : bool := Bool.eqb (gname_eqb a b) eq.
